@@ -151,6 +151,10 @@ pub struct TcpFlow {
     server_data: Vec<TcpData>,
     client_http_parsed: bool,
     server_http_parsed: bool,
+    /// Initial sequence number of the client (from its SYN)
+    client_isn: u32,
+    /// Initial sequence number of the server (from its SYN+ACK), once seen
+    server_isn: Option<u32>,
 }
 
 /// Quick check if HTTP data is complete for parsing (supports HTTP/1.x and HTTP/2)
@@ -173,6 +177,7 @@ impl TcpFlow {
         src_port: u16,
         dst_ip: IpAddr,
         dst_port: u16,
+        client_isn: u32,
         tcp_data: TcpData,
     ) -> TcpFlow {
         TcpFlow {
@@ -184,9 +189,16 @@ impl TcpFlow {
             server_data: Vec::new(),
             client_http_parsed: false,
             server_http_parsed: false,
+            client_isn,
+            server_isn: None,
         }
     }
-    /// Traversing all the data in sequence in the correct order to build the full data
+    /// Builds the contiguous prefix of one direction's byte stream from the segments seen so far.
+    ///
+    /// Segments are ordered by their distance from the first byte of the stream in 32-bit
+    /// sequence-number arithmetic (so an initial sequence number close to 2^32 is handled),
+    /// retransmitted bytes are taken once, and assembly stops at the first gap: bytes beyond a
+    /// segment that has not arrived yet are never glued to the bytes before it.
     ///
     /// # Parameters
     /// - `is_client`: If the data comes from the client.
@@ -197,13 +209,42 @@ impl TcpFlow {
             &self.server_data
         };
 
-        let mut sorted_data = data.clone();
+        // Sequence number of the first payload byte: the byte after the SYN / SYN+ACK.
+        // Without a SYN+ACK the earliest segment seen (in serial order) has to stand in.
+        let first_byte_seq: u32 = if is_client {
+            self.client_isn.wrapping_add(1)
+        } else if let Some(server_isn) = self.server_isn {
+            server_isn.wrapping_add(1)
+        } else {
+            match data.first() {
+                Some(first) => data.iter().fold(first.sequence, |earliest, d| {
+                    if (d.sequence.wrapping_sub(earliest) as i32) < 0 {
+                        d.sequence
+                    } else {
+                        earliest
+                    }
+                }),
+                None => return Vec::new(),
+            }
+        };
 
-        sorted_data.sort_by_key(|tcp_data| tcp_data.sequence);
+        let mut sorted_data: Vec<(u32, &TcpData)> = data
+            .iter()
+            .map(|tcp_data| (tcp_data.sequence.wrapping_sub(first_byte_seq), tcp_data))
+            .collect();
+        sorted_data.sort_by_key(|(offset, _)| *offset);
 
-        let mut full_data = Vec::new();
-        for tcp_data in sorted_data {
-            full_data.extend_from_slice(&tcp_data.data);
+        let mut full_data: Vec<u8> = Vec::new();
+        for (offset, tcp_data) in sorted_data {
+            let offset = offset as usize;
+            if offset > full_data.len() {
+                // gap (or data from before the start of the stream): stop here
+                break;
+            }
+            let already_present = full_data.len().saturating_sub(offset);
+            if let Some(new_bytes) = tcp_data.data.get(already_present..) {
+                full_data.extend_from_slice(new_bytes);
+            }
         }
         full_data
     }
@@ -278,6 +319,13 @@ fn process_tcp_packet(
     };
 
     if let Some(flow) = tcp_flow {
+        if !is_client
+            && flow.server_isn.is_none()
+            && tcp.get_flags() & pnet::packet::tcp::TcpFlags::SYN != 0
+        {
+            // SYN+ACK of the server: remember where its byte stream starts
+            flow.server_isn = Some(tcp.get_sequence());
+        }
         if !tcp.payload().is_empty() {
             let tcp_data = TcpData { sequence: tcp.get_sequence(), data: Vec::from(tcp.payload()) };
 
@@ -342,9 +390,13 @@ fn process_tcp_packet(
             }
         }
     } else if tcp.get_flags() & pnet::packet::tcp::TcpFlags::SYN != 0 {
-        let tcp_data: TcpData =
-            TcpData { sequence: tcp.get_sequence(), data: Vec::from(tcp.payload()) };
-        let flow: TcpFlow = TcpFlow::init(src_ip, src_port, dst_ip, dst_port, tcp_data);
+        // Data carried by the SYN itself starts at the first payload sequence number
+        let tcp_data: TcpData = TcpData {
+            sequence: tcp.get_sequence().wrapping_add(1),
+            data: Vec::from(tcp.payload()),
+        };
+        let flow: TcpFlow =
+            TcpFlow::init(src_ip, src_port, dst_ip, dst_port, tcp.get_sequence(), tcp_data);
         http_flows.insert(flow_key, flow, Duration::new(60, 0));
     }
 
